@@ -8,6 +8,7 @@ def section(kw, target='LAMMPS', extra=''):
     return '[Tabulation]\ntarget : %s\n%s\n%s\n[Pair]\nA-B : as.polynomial 1.0 2.0\n' % (target, '\n'.join('%s : %s' % (k, v) for k, v in kw.items()), extra)
 
 def check_case(rep, case, name):
+    if case.get('kind') == 'excel': excel_grid_case(rep); return
     kw = case['options']; which = case.get('which', 'r')
     pre = {'r': ('nr', 'dr', 'cutoff'), 'rho': ('nrho', 'drho', 'cutoff_rho')}[which]
     try:
@@ -67,11 +68,24 @@ def gen_case(rng):
     elif mode == 'cutoff': o = {pre[2]: str(cutoff)}
     return dict(which=which, options=o, tabulate=(k <= 400))
 
+def excel_grid_case(rep):
+    ini = ('[Tabulation]\ntarget : excel_eam\nnr : 7\ncutoff : 3.0\nnrho : 5\ncutoff_rho : 8.0\n\n[EAM-Embed]\nAl : >=0 as.polynomial 0 1\n\n[EAM-Density]\nAl : >=0 as.polynomial 1 0\n\n[Pair]\nAl-Al : >=0 as.polynomial 1\n')
+    rep.case('excel-grids', 'nr=7, nrho=5')
+    tab = Configuration().read(io.StringIO(ini)); wb = tab.workbook
+    rows = lambda n: [r for r in wb[n].iter_rows(values_only=True)][1:]
+    emb, dens = rows('EAM-Embed'), rows('EAM-Density')
+    if len(emb) != 5 or not close(emb[-1][0], 8.0, 1e-12) or not close(emb[1][0], 2.0, 1e-12):
+        rep.dev('excel-rho-grid', dict(kind='excel'), 'EAM-Embed sheet: %d rows, last rho %r' % (len(emb), emb[-1][0] if emb else None), '5 rows from 0 to 8.0 in steps of 2.0'); return
+    if len(dens) != 7 or not close(dens[-1][0], 3.0, 1e-12):
+        rep.dev('excel-r-grid', dict(kind='excel'), 'EAM-Density sheet: %d rows, last r %r' % (len(dens), dens[-1][0] if dens else None), '7 rows from 0 to 3.0'); return
+    rep.ok()
+
 if __name__ == '__main__':
     pl = payload(); rep = Report('C11')
     if pl.get('mode') == 'replay': rep.case('replay', pl['input']); check_case(rep, pl['input'], 'replay')
     else:
         rng = random.Random(pl.get('seed', 0))
+        excel_grid_case(rep)
         for cut, dr in (('0.3', '0.1'), ('1.2', '0.1'), ('0.7', '0.1'), ('10.0', '0.01'), ('6.5', '0.05')):
             c = dict(which='r', options={'cutoff': cut, 'dr': dr}, tabulate=True); rep.case('cutoff+dr', c); check_case(rep, c, 'cutoff=%s,dr=%s' % (cut, dr))
         for i in range(pl.get('n', 300)):
